@@ -21,6 +21,10 @@ Families (``vf/c12_objects.py`` object level, ``vf/c12_wire.py`` wire level):
               (fragmentSize 1/125/random, autoFragmentSize), the frame API, prepared messages, with/without
               doNotCompress; frames sniffed on the wire (RSV1 rules, doNotCompress => no RSV1 and verbatim payload,
               RSV1 payloads inflated by the reference), onMessage logs compared.
+* refusal     the same through real handshakes with maxMessagePayloadSize on both senders: an incompressible message of
+              about twice the limit must be refused by sendMessage() (PayloadExceededError, nothing on the wire); the
+              following messages share content with the refused one and must all arrive intact and be inflatable by the
+              reference that saw only the wire (a compressor that kept the refused octets in its context fails here).
 * response    hostile server responses against the real client (unknown extension, repeated PMCE, unknown / duplicate /
               out-of-range / ill-valued parameters, declined by the accept policy) must fail the handshake; valid
               responses are controls and are followed by a data exchange with the reference codecs.
@@ -49,7 +53,8 @@ RULE = ("exhaustive: the whole (offer x offer-accept x response-accept) lattice 
         "and frame/fragment chunkings; generated: seed-derived sample of pairs "
         "(thorough: all) through real client<->server handshakes in Twisted and asyncio with random send API, "
         "fragmentation, doNotCompress and stream segmentation; catalogue + seed-derived hostile responses / offers; "
-        "RSV1 variants x role x extension x segmentation x failByDrop. A case is non-trivial when its deciding "
+        "refused oversize sends (sender limit 1500-3000) inside compressed sequences for every context-takeover "
+        "combination; RSV1 variants x role x extension x segmentation x failByDrop. A case is non-trivial when its deciding "
         "monitor fired (pair judged / >=2 messages of a sequence compared / must-fail response evaluated / rejection "
         "evaluated); distinct = hash of (family, framework, configuration, input class).")
 ASSUMPTIONS = [
@@ -74,6 +79,7 @@ DECIDING = {
     "hostile_must_fail_checked": 50, "hostile_controls_opened": 5,
     "offers_judged": 20, "peer_ref_to_lib_compared": 50, "peer_lib_to_ref_compared": 50,
     "rsv_reject_checked": 20, "rsv_controls_delivered": 4, "window8_cases_evaluated": 8,
+    "refusals_in_compressed_sequences": 40, "compressed_messages_compared_after_refusal": 100,
 }
 
 EXTS = (CC.DEFLATE, CC.BZIP2, CC.BROTLI)
@@ -164,6 +170,34 @@ def handshake_cases(tier, seed):
             lst = refused[stage]
             for cfg in rng.sample(lst, min(len(lst), {CC.DEFLATE: 14, CC.BZIP2: 5, CC.BROTLI: 5}[ext] * (1 if tier == "quick" else 6))):
                 add(ext, cfg)
+    return cases
+
+
+def refusal_cases(tier, seed):
+    """Refused sends (sender's maxMessagePayloadSize) inside compressed sequences: every (compressor keeps/resets,
+    decompressor keeps/resets) combination per direction for deflate (several windows) and brotli; bzip2 as control."""
+    rng = CC.shard_rng(seed, "refusal-cases", tier)
+    cases = []
+    for ext in EXTS:
+        pairs, dirs, _ref = CC.enumerate_pairs(ext)
+        if ext == CC.DEFLATE:
+            by_ctx = {}
+            for dk in sorted(dirs, key=repr):
+                by_ctx.setdefault((dk[0], dk[1][0], dk[1][1]), []).append(dirs[dk])
+            cfgs = []
+            for k in sorted(by_ctx):
+                lst = by_ctx[k]
+                cfgs += lst if tier != "quick" else rng.sample(lst, min(len(lst), 6))
+            keys = sorted(pairs, key=repr)
+            cfgs += [pairs[k] for k in rng.sample(keys, 12 if tier == "quick" else 150)]
+        elif ext == CC.BZIP2:
+            keys = sorted(pairs, key=repr)
+            cfgs = [pairs[k] for k in rng.sample(keys, 4 if tier == "quick" else 20)]
+        else:
+            cfgs = [pairs[k] for k in sorted(pairs, key=repr)] * (2 if tier == "quick" else 6)
+        for cfg in cfgs:
+            cases.append({"fam": "refusal", "ext": ext, "cfg": _cfgj(CC.with_mem(ext, cfg, rng.choice(MEMS), rng.choice(MEMS))),
+                          "limit": rng.choice([1500, 2000, 2000, 3000]), "seed": seed})
     return cases
 
 
@@ -347,7 +381,8 @@ def rsv_cases(tier, seed):
 
 
 def wire_cases(tier, seed):
-    cases = handshake_cases(tier, seed) + response_cases(tier, seed) + offer_cases(tier, seed) + rsv_cases(tier, seed)
+    cases = (handshake_cases(tier, seed) + refusal_cases(tier, seed) + response_cases(tier, seed) + offer_cases(tier, seed) +
+             rsv_cases(tier, seed))
     random.Random("c12-wire-shuffle/%d" % seed).shuffle(cases)      # balance the shards
     return cases
 
@@ -399,6 +434,10 @@ def run_case(case, R):
         from vf import c12_wire
 
         c12_wire.drive_handshake(R, case)
+    elif fam == "refusal":
+        from vf import c12_wire
+
+        c12_wire.drive_refusal(R, case)
     elif fam == "response":
         from vf import c12_wire
 
